@@ -32,7 +32,7 @@ def cases(tier, seed):
 
     rng = np.random.default_rng(seed + 1010)
     cs = []
-    n = 200 if tier == 'quick' else 4000
+    n = 200 if tier == 'quick' else 24000
     g3 = ref.coll(3)
     i = 0
     while len(cs) < n:
@@ -48,10 +48,17 @@ def cases(tier, seed):
         c['restol'] = -1.0
         c['_cost'] = c['nlev'] * (4 if c['prob'] in ('heat', 'heatf', 'adv') else 1)
         cs.append(c)
-    nn = 40 if tier == 'quick' else 800
+    nn = 40 if tier == 'quick' else 4000
     for j in range(nn):
         cs.append(dict(kind='nonlinear', which=j % 5, nlev=int(rng.choice([2, 3])), Ms=[int(x) for x in sorted(rng.integers(2, 6, size=3), reverse=True)], qt=['RADAU-RIGHT', 'LOBATTO'][j % 2],
                        iorder=int(rng.choice([2, 4, 6, 8])), finter=bool(rng.random() < 0.4), nsweeps_mid=int(rng.choice([1, 2])), seed=int(rng.integers(0, 2**31)), _cost=20))
+    for j in range(30 if tier == 'quick' else 3000):
+        nlev = int(rng.choice([2, 3, 3]))
+        n0 = int(rng.integers(2, 9))
+        sizes = [n0, n0 if rng.random() < 0.4 else max(1, n0 // 2), 0]
+        sizes[2] = sizes[1] if rng.random() < 0.5 else max(1, sizes[1] // 2)
+        cs.append(dict(kind='mass', nlev=nlev, Ms=[int(x) for x in sorted(rng.integers(2, 6, size=3), reverse=True)], sizes=sizes, qt=['RADAU-RIGHT', 'LOBATTO', 'GAUSS'][j % 3],
+                       finter=bool(rng.random() < 0.4), nsweeps_mid=int(rng.choice([1, 2])), dtexp=float(rng.uniform(-2.5, -0.5)), seed=int(rng.integers(0, 2**31)), _cost=10))
     return cs
 
 
@@ -385,10 +392,98 @@ def run_nonlinear(case, r):
     r.sample = dict(case={k: v for k, v in case.items() if not k.startswith('_')}, change=e)
 
 
+def run_mass(case, r):
+    """FAS with a mass matrix (base_transfer_mass + imex_1st_order_mass): the converged fine solution of
+    Mm U = Mm u0 + dt Q F(U) must survive a down-up cycle over 2 and 3 levels (inherited tau on the middle level)"""
+    from pySDC.implementations.controller_classes.controller_nonMPI import controller_nonMPI
+    from pySDC.implementations.sweeper_classes.imex_1st_order_mass import imex_1st_order_mass
+    from pySDC.implementations.transfer_classes.BaseTransfer_mass import base_transfer_mass
+
+    from vf import harness_problems as hp
+    from vf.levelkit import rand_matrix, read_u
+
+    rng = np.random.default_rng(case['seed'])
+    nlev, Ms, sizes = case['nlev'], case['Ms'][: case['nlev']], case['sizes'][: case['nlev']]
+    dt = 10 ** case['dtexp']
+    As, Bs, Mms = [], [], []
+    for n in sizes:
+        As.append(rand_matrix(rng, n, 'stable', False))
+        Bs.append(rand_matrix(rng, n, 'any', False, scale=0.3))
+        X = rng.standard_normal((n, n))
+        Mms.append(np.eye(n) + 0.3 * (X @ X.T) / n)
+    r.key = f"mass/{nlev}/{Ms}/{sizes}/{case['qt']}/finter{case['finter']}/mid{case['nsweeps_mid']}/{case['dtexp']:.2f}"
+    tag = r.key
+    w = float(rng.uniform(0.5, 3))
+    c0 = [rng.standard_normal(n) for n in sizes]
+    d1 = dict(problem_class=hp.DenseMass, problem_params=dict(A=As[0], B=Bs[0], Mm=Mms[0], c0=c0[0], c1=c0[0][::-1].copy(), w=w), sweeper_class=imex_1st_order_mass,
+              sweeper_params=dict(num_nodes=Ms[0], quad_type=case['qt'], QI='LU', QE='EE'), level_params=dict(dt=dt, restol=1e-13), step_params=dict(maxiter=400))
+    c1 = controller_nonMPI(1, dict(logger_level=50, dump_setup=False), d1)
+    P1 = c1.MS[0].levels[0].prob
+    u0 = P1.u_init
+    u0[:] = rng.standard_normal(sizes[0])
+    try:
+        c1.run(u0, 0.0, dt)
+    except Exception:  # noqa
+        r.count('fine_problem_not_converged')
+        r.check(True, 'noop', '')
+        return
+    L1 = c1.MS[0].levels[0]
+    if L1.status.residual is None or not (L1.status.residual <= 1e-12):
+        r.count('fine_problem_not_converged')
+        r.check(True, 'noop', '')
+        return
+    nsw = [1] * nlev
+    if nlev == 3:
+        nsw[1] = case['nsweeps_mid']
+    desc = dict(problem_class=hp.DenseMass, problem_params=dict(A=As, B=Bs, Mm=Mms, c0=c0, c1=[c[::-1].copy() for c in c0], w=w), sweeper_class=imex_1st_order_mass,
+                sweeper_params=dict(num_nodes=Ms, quad_type=case['qt'], QI='LU', QE='EE'), level_params=dict(dt=dt, restol=-1, nsweeps=nsw), step_params=dict(maxiter=1),
+                space_transfer_class=hp.DenseGalerkinTransfer, space_transfer_params={}, base_transfer_class=base_transfer_mass, base_transfer_params=dict(finter=case['finter']))
+    ctrl = controller_nonMPI(1, dict(logger_level=50, dump_setup=False, predict_type=None), desc)
+    S = ctrl.MS[0]
+    r.check(all(type(bt).__name__ == 'base_transfer_mass' for bt in base_transfers(S).values()), 'mass-transfer-in-use', f'{tag}: base transfer classes {[type(bt).__name__ for bt in base_transfers(S).values()]}')
+    ctrl.restart_block([0], [0.0], u0)
+    S.status.iter = 1
+    F = S.levels[0]
+    M = Ms[0]
+    F.status.time = 0.0
+    for m in range(M + 1):
+        F.u[m] = F.prob.dtype_u(L1.u[m])
+        F.f[m] = F.prob.eval_f(F.u[m], 0.0 + dt * (0.0 if m == 0 else F.sweep.coll.nodes[m - 1]))
+    F.status.unlocked = True
+    before = read_u(F).reshape(M + 1, -1)
+    # coarse defects right after each restriction (wrapped restrict): at the fine fixed point they must vanish
+    resids = []
+    d = getattr(S, '_Step__transfer_dict')
+    for (src, tgt), fn in list(d.items()):
+        li, lj = S.levels.index(src), S.levels.index(tgt)
+        if lj == li + 1:
+            def wrapped(fn=fn, G=tgt, li=li):
+                out = fn()
+                G.sweep.compute_residual()
+                resids.append((li + 1, float(G.status.residual)))
+                return out
+
+            d[(src, tgt)] = wrapped
+    drive_cycle(ctrl, S)
+    after = read_u(F).reshape(M + 1, -1)
+    scale = max(1.0, float(np.max(np.abs(before))))
+    e = float(np.max(np.abs(after - before)))
+    cond = max(float(np.linalg.cond(Mm)) for Mm in Mms)
+    r.check(e <= 1e-10 * scale * cond, 'fine-fixed-point-preserved', f'{tag}: the converged fine solution of the mass-matrix problem changed by {e:.3e} in one down-up cycle (scale {scale:.2e})')
+    for lev, res in resids:
+        r.check(res <= 1e-10 * scale * cond, 'coarse-defect-is-restricted-fine-defect', f'{tag}: level {lev} has residual {res:.3e} right after restriction although the fine level sits at its collocation solution (residual {L1.status.residual:.1e})')
+    r.check(len(resids) == nlev - 1, 'restrictions-observed', f'{tag}: {len(resids)} restrictions observed')
+    r.nontrivial = True
+    r.observe('kind', 'mass')
+    r.sample = dict(case={k: v for k, v in case.items() if not k.startswith('_')}, change=e)
+
+
 def run_case(case):
     r = Result(case)
     if case['kind'] == 'nonlinear':
         run_nonlinear(case, r)
+    elif case['kind'] == 'mass':
+        run_mass(case, r)
     else:
         run_linear(case, r)
     r.count('kind:' + case['kind'])
@@ -401,7 +496,7 @@ def finalize(agg):
     for k in ('oracle:fine-fixed-point-preserved', 'oracle:coarse-defect-is-restricted-fine-defect', 'oracle:iteration-equals-multigrid-matrix'):
         if c.get(k, 0) == 0:
             out.append(f'monitor {k} never evaluated')
-    for kind in ('fixed', 'iter', 'nonlinear'):
+    for kind in ('fixed', 'iter', 'nonlinear', 'mass'):
         if kind not in agg['seen'].get('kind', ()):
             out.append(f'kind {kind} never reached its oracle')
     return out
